@@ -195,6 +195,9 @@ def generate(rng, tier):
     cfg = {
         "fft_fallback": rng.random() < 0.15,
         "precision0": 64 if rng.random() < 0.8 else 32,
+        # alias: the caller keeps using the same array / Wavefront / shift objects across calls
+        # (what user code does); otherwise every call gets fresh copies
+        "alias": rng.random() < 0.5,
     }
     # swarm: which op families are enabled in this run
     enabled = {
@@ -224,7 +227,10 @@ def generate(rng, tier):
             return rng.choice(names)
         name = f"a{len(arrays)}"
         arrays[name] = {"kind": rng.choice(_KINDS), "shape": list(shape),
-                        "seed": rng.getrandbits(32)}
+                        "seed": rng.getrandbits(32),
+                        # physical attributes of the plane this array lives in (Wavefront objects are
+                        # built from them, so that the same object can be reused across calls)
+                        "wvl": rng.uniform(0.4, 1.6), "dxp": rng.uniform(0.01, 2.0), "dxf": rng.uniform(0.5, 20.0)}
         return name
 
     ops = []
@@ -276,22 +282,21 @@ def generate(rng, tier):
             g = rng.choice(pool)
             m = g["in"][0]
             M = g["out"] if not isinstance(g["out"], list) else g["out"][0]
-            wvl = rng.uniform(0.4, 1.6)
+            name = arr_for([m, m])
+            wvl = arrays[name]["wvl"]
             z = rng.uniform(10, 500)
             q = g["Q"] if not isinstance(g["Q"], list) else g["Q"][0]
             q = float(q)
-            if kind == "ffs":
-                dx = rng.uniform(0.01, 2.0)
-                odx = wvl * z / (m * dx) / q
-            else:
-                # unfocus: Q = wvl z /(odx * idx * m)
-                dx = rng.uniform(0.5, 20.0)     # input_dx (um)
-                odx = wvl * z / (m * dx) / q
+            # ffs: input_dx is the pupil spacing (mm); ufs: the focal-plane spacing (um);
+            # either way Q = wvl z / (m dx odx)
+            dx = arrays[name]["dxp"] if kind == "ffs" else arrays[name]["dxf"]
+            odx = wvl * z / (m * dx) / q
             sh = g["shift"]
-            op = {"op": kind, "arr": arr_for([m, m]), "dx": dx, "z": z, "wvl": wvl, "odx": odx,
+            op = {"op": kind, "arr": name, "dx": dx, "z": z, "wvl": wvl, "odx": odx,
                   "out": M if rng.random() < 0.5 else [M, M],
                   "shift": [sh[0] * odx, sh[1] * odx],
-                  "method": rng.choice(["mdft", "czt"]), "wf": rng.random() < 0.5}
+                  "method": rng.choice(["mdft", "czt"]), "wf": rng.random() < 0.5,
+                  "shift_arr": rng.random() < 0.3}
         elif kind in ("focus", "unfocus"):
             if fft_family and rng.random() < 0.8:
                 m, n, fq = rng.choice(fft_family)
@@ -299,8 +304,10 @@ def generate(rng, tier):
                 g = rng.choice(pool)
                 m, n = g["in"]
                 fq = _fft_Q(rng, m, n)
-            op = {"op": kind, "arr": arr_for([m, n]), "Q": fq, "wf": rng.random() < 0.4,
-                  "efl": rng.uniform(10, 500), "wvl": rng.uniform(0.4, 1.6), "dx": rng.uniform(0.01, 2.0)}
+            name = arr_for([m, n])
+            op = {"op": kind, "arr": name, "Q": fq, "wf": rng.random() < 0.4,
+                  "efl": rng.uniform(10, 500), "wvl": arrays[name]["wvl"],
+                  "dx": arrays[name]["dxp"] if kind == "focus" else arrays[name]["dxf"]}
         elif kind == "clear":
             op = {"op": "clear", "which": rng.choice(["mdft", "czt", "both"])}
         elif kind == "precision":
@@ -420,6 +427,7 @@ def execute(plan):
     prec = cfg.get("precision0", 64)
 
     arrays = {k: materialise(s) for k, s in plan["arrays"].items()}
+    user = {"alias": bool(cfg.get("alias")), "live": {}, "wf": {}, "shift": {}}
     history = []   # (sig, result, tol, scale, step) of judged calls
     dirty = False  # has any state-changing event happened since start?
     last_key_sig = {"mdft": None, "czt": None}
@@ -457,7 +465,7 @@ def execute(plan):
                 dirty = True
             elif kind in JUDGED:
                 judged_n += 1
-                r = _judged(np, ft, pr, op, arrays, prec, i, history, violations, probes, bump)
+                r = _judged(np, ft, pr, op, arrays, prec, i, history, violations, probes, bump, user)
                 ev.update(r)
             else:
                 raise RuntimeError(f"unknown op {kind}")
@@ -619,10 +627,23 @@ def _features(plan, op):
     return f
 
 
-def _judged(np, ft, pr, op, arrays, prec, step, history, violations, probes, bump):
+def _same(np, a, b):
+    return a.shape == b.shape and a.dtype == b.dtype and bool(np.array_equal(a, b))
+
+
+def _judged(np, ft, pr, op, arrays, prec, step, history, violations, probes, bump, user=None):
     import warnings
     k = op["op"]
-    a = arrays[op["arr"]].copy()
+    user = user or {"alias": False, "live": {}, "wf": {}, "shift": {}}
+    alias = user["alias"] and not op.get("view")
+    if alias:
+        # the user's own long-lived array: the same object is handed to every call
+        if op["arr"] not in user["live"]:
+            user["live"][op["arr"]] = arrays[op["arr"]].copy()
+        a = user["live"][op["arr"]]
+        bump(probes, "aliased_input")
+    else:
+        a = arrays[op["arr"]].copy()
     view = op.get("view")
     if view == "fortran":
         a = np.asfortranarray(a)
@@ -680,6 +701,8 @@ def _judged(np, ft, pr, op, arrays, prec, step, history, violations, probes, bum
     raised = None
     res = None
     lenient = False
+    wf_obj = None
+    shift_obj = None
     with warnings.catch_warnings():
         warnings.simplefilter("ignore")
         try:
@@ -696,24 +719,60 @@ def _judged(np, ft, pr, op, arrays, prec, step, history, violations, probes, bum
                     bump(probes, "argument_forms")
                 res = fn(a, qa, oa, **kw)
             elif k in ("ffs", "ufs"):
+                sh = tuple(op["shift"])
+                if op.get("shift_arr"):
+                    lenient = True        # documented as a tuple; an array may be rejected cleanly
+                    if alias:
+                        key = (op["arr"], sh)
+                        if key not in user["shift"]:
+                            user["shift"][key] = np.array(sh, dtype=np.float64)
+                        sh = user["shift"][key]
+                        shift_obj = (key, sh, np.array(op["shift"], dtype=np.float64))
+                    else:
+                        sh = np.array(sh, dtype=np.float64)
                 if op["wf"]:
-                    w = pr.Wavefront(a, op["wvl"], op["dx"], space="pupil" if k == "ffs" else "psf")
+                    w = _wavefront(pr, user, alias, op, a, "pupil" if k == "ffs" else "psf")
+                    wf_obj = w
                     meth = w.focus_fixed_sampling if k == "ffs" else w.unfocus_fixed_sampling
-                    res = meth(op["z"], op["odx"], tup(op["out"]), shift=tuple(op["shift"]),
-                               method=op["method"]).data
+                    res = meth(op["z"], op["odx"], tup(op["out"]), shift=sh, method=op["method"]).data
                 else:
                     fn = pr.focus_fixed_sampling if k == "ffs" else pr.unfocus_fixed_sampling
                     res = fn(a, op["dx"], op["z"], op["wvl"], op["odx"], tup(op["out"]),
-                             shift=tuple(op["shift"]), method=op["method"])
+                             shift=sh, method=op["method"])
             else:
                 if op["wf"]:
-                    w = pr.Wavefront(a, op["wvl"], op["dx"], space="pupil" if k == "focus" else "psf")
+                    w = _wavefront(pr, user, alias, op, a, "pupil" if k == "focus" else "psf")
+                    wf_obj = w
                     res = (w.focus(op["efl"], Q=op["Q"]) if k == "focus" else w.unfocus(op["efl"], Q=op["Q"])).data
                 else:
                     res = (pr.focus if k == "focus" else pr.unfocus)(a, op["Q"])
         except Exception as e:
             raised = e
 
+    # whatever the call did, the caller's own objects must still hold what was passed in:
+    # otherwise the next call with "the same arguments" transforms something else
+    pristine = arrays[op["arr"]]
+    mutated = None
+    if not op.get("view") or op.get("view") in ("fortran", "negstride", "strided"):
+        if not _same(np, np.asarray(a), pristine):
+            mutated = "input array"
+    if wf_obj is not None and mutated is None:
+        d = getattr(wf_obj, "data", None)
+        if d is None or not _same(np, np.asarray(d), pristine):
+            mutated = "Wavefront.data"
+    if shift_obj is not None and mutated is None:
+        if not _same(np, shift_obj[1], shift_obj[2]):
+            mutated = "shift array"
+    if mutated:
+        violations.append({"oracle": "arg-mutated", "step": step, "route": route, "what": mutated,
+                           "feat": _features_from(m, n, Q, out, shift, pristine, np)})
+        # put the user's objects back so that one mutation is reported once
+        if alias:
+            user["live"][op["arr"]] = pristine.copy()
+            for kk in [kk for kk in user["wf"] if kk[0] == op["arr"]]:
+                del user["wf"][kk]
+            if shift_obj is not None:
+                del user["shift"][shift_obj[0]]
     feat = None
     if raised is not None:
         r = {"out": "raised:" + type(raised).__name__}
@@ -752,10 +811,23 @@ def _judged(np, ft, pr, op, arrays, prec, step, history, violations, probes, bum
                            "tol": tol * scale, "relerr": err / scale, "prec": prec,
                            "feat": _features_from(m, n, Q, out, shift, a, np)})
     # signature for the history check: everything the answer may depend on
-    sig = core.digest([k, {kk: vv for kk, vv in op.items() if kk not in ("op", "forms", "view")}, prec])
+    sig = core.digest([k, {kk: vv for kk, vv in op.items() if kk not in ("op", "forms", "view", "shift_arr")}, prec])
     cmp = np.abs(res) if shifted else res
     history.append((sig, cmp, tol, scale, step))
     return r
+
+
+def _wavefront(pr, user, alias, op, a, space):
+    """A Wavefront around the caller's array; in alias mode the same object is
+    reused for every call on that array in that plane."""
+    if not alias:
+        return pr.Wavefront(a, op["wvl"], op["dx"], space=space)
+    key = (op["arr"], space)
+    w = user["wf"].get(key)
+    if w is None or w.data is not a:
+        w = pr.Wavefront(a, op["wvl"], op["dx"], space=space)
+        user["wf"][key] = w
+    return w
 
 
 def _apply_forms(np, forms, qa, oa, kw):
